@@ -8,6 +8,9 @@ import SnowModel.SnowingLoop
 import Mathlib.Tactic.Ring
 import Mathlib.Tactic.Linarith
 import Mathlib.Data.List.Basic
+import Mathlib.Data.Real.Basic
+import Mathlib.Algebra.BigOperators.Group.Finset.Basic
+import Mathlib.Algebra.Order.BigOperators.Group.Finset
 
 namespace Snow
 universe u v
@@ -168,6 +171,68 @@ theorem loopUntil_first (step : Nat → σ → β → σ) (stop : σ → Bool) (
         ∀ j, j < k → stop (stateAt step xs s0 j) = false := by
   have := loopUntil_some_iff step stop xs 0 s0 k s'
   simpa [stateAt_eq_prefState] using this
+
+/-- the break index alone -/
+theorem loopUntil_fst_some_iff (step : Nat → σ → β → σ) (stop : σ → Bool) (xs : List β) (s0 : σ)
+    (k : Nat) :
+    (loopUntil step stop xs 0 s0).1 = some k ↔
+      k < xs.length ∧ stop (stateAt step xs s0 k) = true ∧
+        ∀ j, j < k → stop (stateAt step xs s0 j) = false := by
+  constructor
+  · intro h
+    have h' : loopUntil step stop xs 0 s0 = (some k, (loopUntil step stop xs 0 s0).2) := by
+      rw [← h]
+    obtain ⟨h1, h2, h3, h4⟩ := (loopUntil_first step stop xs s0 k _).mp h'
+    exact ⟨h1, by rw [← h2]; exact h3, h4⟩
+  · rintro ⟨h1, h2, h3⟩
+    have := (loopUntil_first step stop xs s0 k (stateAt step xs s0 k)).mpr ⟨h1, rfl, h2, h3⟩
+    rw [this]
+
+/-- … and the state the loop is left with is the state after that step -/
+theorem loopUntil_snd_of_some (step : Nat → σ → β → σ) (stop : σ → Bool) (xs : List β) (s0 : σ)
+    (k : Nat) (s' : σ) (h : loopUntil step stop xs 0 s0 = (some k, s')) :
+    s' = stateAt step xs s0 k := ((loopUntil_first step stop xs s0 k s').mp h).2.1
+
+theorem stateAt_succ (step : Nat → σ → β → σ) (xs : List β) (s0 : σ) (k : Nat)
+    (hk : k + 1 < xs.length) :
+    stateAt step xs s0 (k + 1) = step (k + 1) (stateAt step xs s0 k) (xs[k + 1]'hk) := by
+  have := prefState_succ step xs 0 s0 k hk
+  simpa [stateAt_eq_prefState] using this
+
+theorem stateAt_zero (step : Nat → σ → β → σ) (xs : List β) (s0 : σ) (h : 0 < xs.length) :
+    stateAt step xs s0 0 = step 0 s0 (xs[0]'h) := by
+  simpa [stateAt_eq_prefState] using prefState_zero step xs 0 s0 h
+
+/-- an invariant of every step holds at every loop state -/
+theorem stateAt_invariant (step : Nat → σ → β → σ) (P : σ → Prop) (xs : List β) (s0 : σ)
+    (h0 : P s0) (hstep : ∀ i s x, P s → P (step i s x)) (k : Nat) : P (stateAt step xs s0 k) := by
+  unfold stateAt
+  generalize xs.take (k + 1) = ys
+  generalize 0 = i0
+  induction ys generalizing i0 s0 with
+  | nil => simpa [iterIdx] using h0
+  | cons y ys ih => simp only [iterIdx]; exact ih _ (hstep _ _ _ h0) _
+
+/-- a property established by every step holds at every loop state (after ≥ 1 step) -/
+theorem stateAt_post (step : Nat → σ → β → σ) (Q : σ → Prop) (xs : List β) (s0 : σ)
+    (hstep : ∀ i s x, Q (step i s x)) (k : Nat) (hk : k < xs.length) : Q (stateAt step xs s0 k) := by
+  cases k with
+  | zero => rw [stateAt_zero step xs s0 hk]; exact hstep _ _ _
+  | succ k => rw [stateAt_succ step xs s0 k hk]; exact hstep _ _ _
+
+/-- **accumulator = Riemann sum**: if every step adds `inc (new state)` to the component `E`,
+then after step `k` the component is the initial value plus the sum of the increments. -/
+theorem accum_eq_sum (step : Nat → σ → β → σ) (E inc : σ → ℝ)
+    (hstep : ∀ i s x, E (step i s x) = E s + inc (step i s x))
+    (xs : List β) (s0 : σ) (k : Nat) (hk : k < xs.length) :
+    E (stateAt step xs s0 k) = E s0 + ∑ j ∈ Finset.range (k + 1), inc (stateAt step xs s0 j) := by
+  induction k with
+  | zero =>
+    rw [stateAt_zero step xs s0 hk]
+    simp [hstep, stateAt_zero step xs s0 hk]
+  | succ k ih =>
+    rw [Finset.sum_range_succ, ← add_assoc, ← ih (by omega)]
+    rw [stateAt_succ step xs s0 k hk, hstep]
 
 /-! ### `firstHit` -/
 
